@@ -261,6 +261,13 @@ type mblock struct {
 	invPhase int
 	trPhase  int
 	invQueued bool // marked invalid while still queued (the store dropped it)
+	prevRaw   []byte // the body handed in before the last "other body" re-add, and the phase of that re-add:
+	rawPhase  int    // a read racing with it may still return the old body
+}
+
+// is d what a read may return for this block (concurrent = it raced with writer ops of phase ph)?
+func (b *mblock) bodyOK(d []byte, concurrent bool, ph int) bool {
+	return bytes.Equal(d, b.raw) || (concurrent && b.prevRaw != nil && b.rawPhase == ph && bytes.Equal(d, b.prevRaw))
 }
 
 type readRec struct {
@@ -423,7 +430,7 @@ func (r *run) judge(rec *readRec, concurrent bool) {
 	o := rec.o
 	if o.Op == "get" {
 		if rec.err == nil && rec.data != nil {
-			if !bytes.Equal(rec.data, b.raw) {
+			if !b.bodyOK(rec.data, concurrent, r.phase) {
 				r.viol("live.get.bytes", "op#%d get(block %d, mode %d) returned %d bytes that differ from the %d bytes stored (first difference at %d)", o.ID, rec.b, o.Mode, len(rec.data), len(b.raw), firstDiff(rec.data, b.raw))
 				return
 			}
@@ -491,6 +498,19 @@ func (r *run) writerOp(o *Op) {
 			b.invalid, b.added, b.trusted, b.invQueued = false, false, false, false
 			b.addPhase, b.invPhase = -1, -1
 			r.out.Probe("readd_after_invalid_while_queued", 1)
+			if (uint64(o.ID)^r.cfg.SchedSeed)%2 == 0 && len(b.raw) > 80 {
+				// ... and what comes now under that hash are other bytes (a block's hash covers its header only:
+				// the copy that was refused had a malleated body)
+				nb := make([]byte, 0, len(b.raw)+1)
+				nb = append(nb, b.raw[:80]...)
+				for i := len(b.raw) - 1; i >= 80; i-- {
+					nb = append(nb, b.raw[i]^0x35)
+				}
+				nb = append(nb, 0x5a)
+				b.prevRaw, b.rawPhase = b.raw, r.phase
+				b.raw = nb
+				r.out.Probe("readd_after_invalid_while_queued_with_another_body", 1)
+			}
 		}
 		blk := &btc.Block{Raw: b.raw, Hash: b.hash, TxCount: int(b.spec.Txs)}
 		tr := b.spec.Trusted
@@ -787,7 +807,7 @@ func (r *run) recordRead(rec *readRec, c int) {
 	b := r.bl[rec.b]
 	ok := rec.err == nil && rec.data != nil
 	r.hist = append(r.hist, porcupine.Operation{ClientId: c, Input: hin{"get", rec.b}, Call: int64(rec.call),
-		Output: hout{OK: ok, Good: ok && bytes.Equal(rec.data, b.raw)}, Return: int64(rec.ret)})
+		Output: hout{OK: ok, Good: ok && b.bodyOK(rec.data, true, r.phase)}, Return: int64(rec.ret)})
 }
 
 // per-block state machine: 0 absent, 1 present, 2 invalid (anything goes)
